@@ -1308,7 +1308,13 @@ def geometric_directions(path, kind):
         if len(pts) < 3:
             return None
         e, r = unit(pts[1] - pts[0]), unit(pts[-1] - pts[-2])
-        return None if e is None or r is None else (e, r, 3e-2)
+        e2, r2 = unit(pts[2] - pts[1]), unit(pts[-2] - pts[-3])
+        if e is None or r is None or e2 is None or r2 is None:
+            return None
+        # the sampled polyline turns by this much from one dz step to the next at either end (large where the ray runs
+        # nearly horizontally in shallow ice): the chord of one step cannot resolve the tangent better than that
+        bend = max(float(np.linalg.norm(e2 - e)), float(np.linalg.norm(r2 - r)))
+        return (e, r, 3e-2 + 1.5 * bend)
     except Exception:      # noqa: BLE001
         note_skip("coordinates_not_available_" + kind)
         return None
